@@ -14,7 +14,10 @@ Inductive hstep :=
   (* buffer length, lines in querylog.json / .json.1 (-1 = file absent) *)
   | HState (nbuf ncur nrot : Z)
   (* GET /control/querylog: 0 = 200, 1 = 400, 2 = panic; ids; oldest (0 = "") *)
-  | HSearch (q : request) (code : Z) (ids : list N) (oldest : Z).
+  | HSearch (q : request) (code : Z) (ids : list N) (oldest : Z)
+  (* queryLog.search called directly with explicit searchParams (small scan
+     windows cannot be requested through HTTP) *)
+  | HSearchP (p : params) (code : Z) (ids : list N) (oldest : Z).
 
 Inductive case :=
   | CHist (me bf : Z) (c0 : config) (steps : list hstep).
@@ -29,6 +32,15 @@ Definition search_ok (me bf : Z) (s : state) (q : request) (code : Z) (ids : lis
   | Panic => code =? 2
   end.
 
+Definition searchp_ok (me bf : Z) (s : state) (p : params) (code : Z) (ids : list N) (oldest : Z) : bool :=
+  match search me bf s p with
+  | Ok es o => (code =? 0) && eqb_list N.eqb (map e_id es) ids && (o =? oldest)
+  | BadRequest => code =? 1
+  | Panic => code =? 2
+  end.
+
+Definition P := Build_params.
+
 Fixpoint replay (me bf : Z) (s : state) (steps : list hstep) : bool :=
   match steps with
   | [] => true
@@ -36,6 +48,7 @@ Fixpoint replay (me bf : Z) (s : state) (steps : list hstep) : bool :=
   | HState nb nc nr :: r =>
       (lenZ (buf s) =? nb) && (opt_len (cur s) =? nc) && (opt_len (rot s) =? nr) && replay me bf s r
   | HSearch q code ids oldest :: r => search_ok me bf s q code ids oldest && replay me bf s r
+  | HSearchP p code ids oldest :: r => searchp_ok me bf s p code ids oldest && replay me bf s r
   end.
 
 Definition case_ok (c : case) : bool :=
@@ -63,6 +76,12 @@ Fixpoint explain_steps (me bf : Z) (s : state) (steps : list hstep) : list (Z * 
        | BadRequest => (1, [], 0)
        | Panic => (2, [], 0)
        end, search_ok me bf s q code ids oldest) :: explain_steps me bf s r
+  | HSearchP p code ids oldest :: r =>
+      (match search me bf s p with
+       | Ok es o => (0, map e_id es, o)
+       | BadRequest => (1, [], 0)
+       | Panic => (2, [], 0)
+       end, searchp_ok me bf s p code ids oldest) :: explain_steps me bf s r
   end.
 
 Definition explain (c : case) :=
